@@ -64,9 +64,11 @@ type Case struct {
 	Rules      []RuleJ             `json:"rules"`
 	Lsets      []map[string]string `json:"lsets"`
 	ProviderGC int64               `json:"provider_gc"`
-	Pre        int                 `json:"pre"` // the first Pre ops run before the inhibitor is started (it slurps the result)
+	Pre        int                 `json:"pre"`                  // the first Pre ops run before the inhibitor is started (it slurps the result)
 	StartPend  []Op                `json:"start_pend,omitempty"` // like Op.Pend, for the initial start
-	Ops        []Op                `json:"ops"`
+	// Race != nil: not a history but a run of the concurrent engine (race_test.go) with these parameters
+	Race *RaceParams `json:"race,omitempty"`
+	Ops  []Op        `json:"ops"`
 }
 
 // loadProvider wraps the real provider so that "updates arrive while a new inhibitor is loading" is deterministic:
@@ -418,9 +420,9 @@ func runCase(t *testing.T, c *Case) result {
 
 		var ih *inhibit.Inhibitor
 		var gcNext int64
-		lastUpd := map[int]*types.Alert{}  // label set index -> latest stored update (what the inhibitor was sent)
-		loadPend := map[int]bool{} // label set index -> its latest update was published while the running inhibitor was loading
-		gcSince := map[int]bool{}          // label set index -> an inhibitor GC ran at or after the instant its latest update became resolved
+		lastUpd := map[int]*types.Alert{} // label set index -> latest stored update (what the inhibitor was sent)
+		loadPend := map[int]bool{}        // label set index -> its latest update was published while the running inhibitor was loading
+		gcSince := map[int]bool{}         // label set index -> an inhibitor GC ran at or after the instant its latest update became resolved
 		nowNs := func() int64 { return time.Now().UnixNano() }
 
 		provAlerts := func() []*types.Alert {
@@ -914,7 +916,11 @@ func TestCheck(t *testing.T) {
 		if err := vh.LoadReplayCase(env.Replay, &c); err != nil {
 			t.Fatal(err)
 		}
-		cases = append(cases, c)
+		if c.Race != nil {
+			judgeRace(t, run, *c.Race)
+		} else {
+			cases = append(cases, c)
+		}
 	} else {
 		cases = append(cases, vh.LoadCorpus[Case](env, "C03")...)
 		r := vh.NewRand(env.Seed).Fork() // Fork: vh streams of consecutive seeds are the same sequence shifted by one step
@@ -941,7 +947,11 @@ func TestCheck(t *testing.T) {
 		run.Count("rules", fmt.Sprint(len(c.Rules)))
 		run.Count("history_len", fmt.Sprintf("%02d-%02d", len(c.Ops)/5*5, len(c.Ops)/5*5+4))
 	}
-	if err := run.Finish("random rule sets (1-3 rules over sev/cluster/inst/zone, equal lists incl. labels missing on one side; one third of the cases: 2-3 equal labels with values that collide under concatenation) and histories of Put (fresh, refreshed with varied end times, resolved, no end), time passing (time-outs), inhibitor GC ticks, provider GC, inhibitor restarts, over 3-6 label sets sharing equal-values; after every op Mutes+marker for every label set, cache/index content, MuteStage; non-trivial = some label set muted and some not muted during the history; distinct by full history text"); err != nil {
+	if env.Replay == "" {
+		// concurrent engine: real Puts of conflicting versions racing on all cores against a running inhibitor
+		judgeRace(t, run, racePlan(env))
+	}
+	if err := run.Finish("random rule sets (1-3 rules over sev/cluster/inst/zone, equal lists incl. labels missing on one side; one third of the cases: 2-3 equal labels with values that collide under concatenation) and histories of Put (fresh, refreshed with varied end times, resolved, no end), time passing (time-outs), inhibitor GC ticks, provider GC, inhibitor restarts, over 3-6 label sets sharing equal-values; after every op Mutes+marker for every label set, cache/index content, MuteStage; plus a judged concurrent engine outside synctest (2-4 goroutines Put conflicting versions of the same source alerts at once in large batches against a running inhibitor and plain subscribers, one slow; afterwards every subscriber's last delivered version is the stored one and the running inhibitor agrees with a fresh one loaded from the provider and with the rule over the provider's unresolved alerts); non-trivial = some label set muted and some not muted during the history; distinct by full history text"); err != nil {
 		t.Fatal(err)
 	}
 }
